@@ -1,34 +1,43 @@
 #!/usr/bin/env python3
-"""Applies every seeded change to /repo in turn, runs the quick check of its property (plus extra checks given
-in EXTRA), reverts, and records what was detected in seeded/<id>/meta.json and seeded/RESULTS.md."""
+"""Evaluates seeded changes in a scratch worktree of /repo's HEAD (PGF_REPO points the checks at it, so /repo itself stays
+untouched and the committed evidence is not overwritten): apply, run the quick check of the property (plus EXTRA checks),
+record what was detected in seeded/<id>/meta.json and seeded/RESULTS.md.   usage: eval_all_seeded.py [--only-new] [ids...]"""
 import json, os, re, subprocess, sys
 V = "/verif"
-EXTRA = {"C01-1": ["C04"], "C01-2": ["C13"], "C14-1": [], "C08-2": ["C02"], "C13-2": ["C14"], "C03-2": ["C13"]}
+WT = "/tmp/wt/eval"
+EXTRA = {"C01-1": ["C04"], "C01-2": ["C13"], "C08-2": ["C02"], "C03-2": ["C13"], "C02-4": ["C08"], "C08-3": ["C12"], "C08-4": ["C09"],
+         "C09-4": ["C08"], "C12-4": ["C02"], "C01-4": ["C04"], "C05-4": ["C04"], "C20-3": ["C11"], "C07-4": ["C09"], "C11-3": ["C20"]}
+args = [a for a in sys.argv[1:] if not a.startswith("--")]
+only_new = "--only-new" in sys.argv
 ids = sorted(d for d in os.listdir(f"{V}/seeded") if os.path.isdir(f"{V}/seeded/{d}"))
-if len(sys.argv) > 1:
-    ids = [i for i in ids if i in sys.argv[1:]]
-rows = []
+if args:
+    ids = [i for i in ids if i in args]
+head = subprocess.run(["git", "-C", "/repo", "rev-parse", "HEAD"], capture_output=True, text=True).stdout.strip()
+if not os.path.isdir(WT):
+    subprocess.run(["git", "-C", "/repo", "worktree", "add", "-q", "--detach", WT, head], check=True)
+env = dict(os.environ, PGF_REPO=WT, VERIF_EVIDENCE_DIR="/tmp/wt/eval_evidence", VERIF_REPLAY_DIR="/tmp/wt/eval_replays")
 for sid in ids:
     d = f"{V}/seeded/{sid}"
     meta = json.load(open(f"{d}/meta.json"))
-    if subprocess.run(["git", "-C", "/repo", "status", "--short"], capture_output=True, text=True).stdout.strip():
-        sys.exit("/repo dirty")
-    subprocess.run(["git", "-C", "/repo", "apply", f"{d}/patch.diff"], check=True)
+    if only_new and meta.get("detected_by"):
+        continue
+    subprocess.run(["git", "-C", WT, "checkout", "-q", "--detach", head], check=True)
+    subprocess.run(["git", "-C", WT, "checkout", "-q", "--", "."], check=True)
+    subprocess.run(["git", "-C", WT, "apply", f"{d}/patch.diff"], check=True)
     det = {}
     try:
         for chk in [meta["property"]] + EXTRA.get(sid, []):
-            p = subprocess.run(["./check", chk, "quick"], cwd=V, capture_output=True, text=True)
+            p = subprocess.run(["./check", chk, "quick"], cwd=V, capture_output=True, text=True, env=env)
             sigs = re.findall(r"sig=(\S+) count=(\d+)", p.stdout)
             det[chk] = {"rc": p.returncode, "signatures": [s for s, _ in sigs][:6]}
     finally:
-        subprocess.run(["git", "-C", "/repo", "checkout", "--", "."], check=True)
+        subprocess.run(["git", "-C", WT, "checkout", "-q", "--", "."], check=True)
     meta["detected_by"] = det
     meta["detected"] = any(v["rc"] == 1 for v in det.values())
     json.dump(meta, open(f"{d}/meta.json", "w"), indent=1)
-    rows.append((sid, det))
     print(sid, {k: (v["rc"], v["signatures"][:2]) for k, v in det.items()}, flush=True)
 with open(f"{V}/seeded/RESULTS.md", "w") as f:
-    f.write("| seeded change | check | rc | first signatures |\n|---|---|---|---|\n")
+    f.write("| seeded change | check | rc (1 = violation reported) | first signatures |\n|---|---|---|---|\n")
     for sid in sorted(os.listdir(f"{V}/seeded")):
         mp = f"{V}/seeded/{sid}/meta.json"
         if os.path.exists(mp):
